@@ -596,6 +596,8 @@ class SyndiffixBlobReader(SyndiffixBlob):
             return self._original_order(self.catalog.read(cols_tuple))
 
         # Need to stitch!
+        # The plan for a request must not depend on the requests served before it: search with a fresh generator.
+        self.unsafe_rng = random.Random(0)
         comb, cols_tuple_sorted = self._absolute_column_indexes(cols_tuple)
         if target_column is None:
             context = self._clustering_context(comb)
